@@ -55,6 +55,14 @@ pub fn run(seed: u64, n: usize, out: &mut Out, with_sem: bool, known_defects: u3
             key: format!("{i}:{}", c.query_text),
         });
         if with_sem {
+            // does this world meet the hypotheses of the whole-query refinement theorem (C01.v)?
+            out.add_info(Case {
+                input: input.clone(),
+                coq: format!("run_hyps {} {}", crate::irprint::query(&c.indexed.ir_query), crate::irprint::args(&c.args)),
+                imp: String::new(),
+                nontrivial: false,
+                key: format!("h{i}"),
+            });
             out.add_spec(
                 Case { input, coq: format!("run_sem {coq_args}"), imp, nontrivial, key: format!("s{i}:{}", c.query_text) },
                 class,
